@@ -292,6 +292,41 @@ pub fn run(ctx: &Ctx) {
                 }
             }
         }
+        // the same sweep over the FOOTER and the ASSERTION length (1..=300 and around powers of two), 5-byte message:
+        // local tokens identical for identical nonce, signed tokens verified by the other backend
+        if let Some(kp) = kps.first() {
+            let key = g.bytes(32);
+            'piece: for which in ["footer", "assertion"] {
+                for len in (1..=300usize).chain([511usize, 512, 513, 1023, 1024, 1025, 4095, 4096, 4097, 65536]) {
+                    let swept = content(&mut g, len);
+                    let (f, a): (Vec<u8>, Vec<u8>) = if which == "footer" { (swept, b"ia".to_vec()) } else { (b"f".to_vec(), swept) };
+                    rep.evaluations += 3;
+                    let n = g.bytes(32);
+                    let tx = (bx.local_seal_nonce)(&key, n.clone(), b"five!", &f, &a);
+                    let ty = (by.local_seal_nonce)(&key, n.clone(), b"five!", &f, &a);
+                    if tx != ty || tx.is_err() {
+                        rep.violation(&format!("c03.siblings.{x}.local"), format!("{x} and {y} produce different tokens for the same key and nonce ({len}-byte {which})"), case_json(x, &key, &n, b"five!", &f, &a, None));
+                        break 'piece;
+                    }
+                    for (signer, verifier) in [(bx, by), (by, bx)] {
+                        match (signer.public_sign)(&kp.sk, b"five!", &f, &a, SealVia::Seal) {
+                            Ok(t) => match (verifier.public_verify)(&kp.pk, &t, &a, false) {
+                                Ok((m2, _)) if m2 == b"five!" => {}
+                                other => {
+                                    rep.violation(&format!("c03.siblings.{x}.public-accept"), format!("{} rejects {}'s signed token with a {len}-byte {which}: {:?}", verifier.name, signer.name, other.map(|z| z.0.len())), json!({"token": t, "pk": hex::encode(&kp.pk), "a": hex::encode(&a)}));
+                                    break 'piece;
+                                }
+                            },
+                            Err(e) => {
+                                rep.violation(&format!("c03.siblings.{x}.sign"), format!("{} sign failed for a {len}-byte {which}: {e}", signer.name), json!({"sk": hex::encode(&kp.sk)}));
+                                break 'piece;
+                            }
+                        }
+                    }
+                }
+            }
+            rep.count_n(&format!("siblings.{x}.piece-length-sweep"), 620);
+        }
         // public: each verifies the other's signatures; deterministic pair byte-identical
         // every message length 0..=600 (fixed 10-byte footer, 12-byte assertion): each backend signs, the OTHER one
         // verifies — a pre-authentication encoding that goes wrong only in some length window is self-consistent
